@@ -138,8 +138,22 @@ def by_qualname(qualname, lineno=None, live_fn=None):
         live = live_fn
     else:
         try:
+            nested_in_function = False
             for name in rest[:-1]:
-                obj = getattr(obj, name)
+                if inspect.isfunction(obj) or isinstance(obj, (staticmethod, classmethod)):
+                    nested_in_function = True
+                    break
+                if inspect.isclass(obj):
+                    cls = obj
+                obj = inspect.getattr_static(obj, name) if inspect.isclass(obj) else getattr(obj, name)
+            if inspect.isfunction(obj) and rest[:-1]:
+                nested_in_function = True
+            if nested_in_function:
+                # a def nested in a function has no live object before the outer function runs:
+                # the extracted node is all there is (closures are checked through live cells)
+                ex = Extracted(qualname, mod, node, seg, filename, cls)
+                _fn_cache[ckey] = ex
+                return ex
             cls = obj if inspect.isclass(obj) else None
             lname = rest[-1]
             if lname.startswith('__') and not lname.endswith('__') and cls is not None:
